@@ -32,6 +32,9 @@ type e3Call struct {
 	// every value reachable from its globals (a cache reachable from two modules, or twice
 	// from one, is frozen more than once, possibly while other modules still call once).
 	Freeze bool `json:"freeze,omitempty"`
+	// FailValue: the failing callable returns a value together with its error, as some
+	// builtins do (dict.clear on a frozen dict returns None and an error).
+	FailValue bool `json:"fail_with_value,omitempty"`
 }
 
 type e3Scenario struct {
@@ -52,6 +55,7 @@ func e3Gen(r *rand.Rand, tier string) any {
 		var calls []e3Call
 		for k := 0; k < 1+r.IntN(4); k++ {
 			call := e3Call{Key: r.IntN(nk), Fail: r.IntN(4) == 0, Yields: r.IntN(4)}
+			call.FailValue = call.Fail && r.IntN(3) == 0
 			if sc.Caches == 2 && r.IntN(2) == 0 {
 				call.Cache = 1
 				if r.IntN(2) == 0 {
@@ -176,6 +180,9 @@ func e3Exec(scAny any, c *simcheck.Ctx) *simcheck.Violation {
 					do(th, 1000+opID, in, opID+1)
 				}
 				if call.Fail {
+					if call.FailValue {
+						return starlark.None, fmt.Errorf("callable %d failed", opID)
+					}
 					return nil, fmt.Errorf("callable %d failed", opID)
 				}
 				invokedOK[key] = append(invokedOK[key], opID)
